@@ -3,6 +3,8 @@
 run the property's check(s) against it on a scratch worktree, and record what caught it."""
 import json, os, shutil, subprocess, sys
 V = os.path.dirname(os.path.dirname(os.path.abspath(__file__)))
+norun = "--no-run" in sys.argv
+if norun: sys.argv.remove("--no-run")
 src, sid = sys.argv[1], sys.argv[2]
 extra = sys.argv[3:]
 r = subprocess.run([os.path.join(V, "tools/verify_seed.sh"), src], stdout=subprocess.PIPE, stderr=subprocess.STDOUT, text=True)
@@ -15,6 +17,9 @@ shutil.copytree(src, dst)
 meta = json.load(open(os.path.join(dst, "meta.json")))
 facts = [l for l in r.stdout.split("\n") if l.startswith("RESULT")]
 meta["confirmed_by_integrator"] = {"how": "tools/verify_seed.sh on a scratch worktree of /repo HEAD: go build, full go test, demo without and with the change", "result": facts[-1] if facts else ""}
+if norun:
+    json.dump(meta, open(os.path.join(dst, "meta.json"), "w"), indent=1)
+    print("adopted (checks not run: use tools/eval_seeds.py --first %s)" % sid); sys.exit(0)
 props = [meta["property"]] + extra
 out = subprocess.run([os.path.join(V, "tools/run_seed.sh"), dst] + props, stdout=subprocess.PIPE, stderr=subprocess.STDOUT, text=True).stdout
 print(out[-3000:])
